@@ -94,24 +94,36 @@ Q(v) == IF v[1] = "float" THEN v[2] ELSE 4 * v[2]
 IsF(a, b) == a[1] = "float" \/ b[1] = "float"
 
 Undefined == <<"undefined">>     \* an operation outside the modelled domain
+Overflow  == <<"overflow">>      \* a value outside the range this model computes in (TLC integers are 32-bit):
+                                 \* the run is skipped by the harness, it is not a verdict
+Lim == 67108864                  \* 2^26; quarter-unit floats then stay below 2^28
+Fits(n) == n <= Lim /\ n >= -Lim
+SafeMul(a, b) == IF a = 0 \/ b = 0 THEN 0
+                 ELSE IF Abs(a) <= Lim \div Abs(b) THEN a * b ELSE Lim + 1
+IntR(n) == IF Fits(n) THEN <<"int", n>> ELSE Overflow
+FltR(q) == IF Fits(q) THEN <<"float", q>> ELSE Overflow
+
+RECURSIVE SafePow(_, _)
+SafePow(a, n) == IF n = 0 THEN 1 ELSE LET pw == SafePow(a, n - 1) IN IF Fits(pw) THEN SafeMul(a, pw) ELSE Lim + 1
 
 BinOp(op, a, b) ==
     IF ~(IsNum(a) /\ IsNum(b)) THEN Undefined ELSE
-    CASE op = "+"  -> IF IsF(a, b) THEN <<"float", Q(a) + Q(b)>> ELSE IntV(a[2] + b[2])
-      [] op = "-"  -> IF IsF(a, b) THEN <<"float", Q(a) - Q(b)>> ELSE IntV(a[2] - b[2])
+    CASE op = "+"  -> IF IsF(a, b) THEN FltR(Q(a) + Q(b)) ELSE IntR(a[2] + b[2])
+      [] op = "-"  -> IF IsF(a, b) THEN FltR(Q(a) - Q(b)) ELSE IntR(a[2] - b[2])
       [] op = "*"  -> IF IsF(a, b)
-                      THEN (IF (Q(a) * Q(b)) % 4 = 0 THEN <<"float", (Q(a) * Q(b)) \div 4>> ELSE Undefined)
-                      ELSE IntV(a[2] * b[2])
+                      THEN (LET m == SafeMul(Q(a), Q(b)) IN
+                            IF ~Fits(m) THEN Overflow ELSE IF m % 4 = 0 THEN FltR(m \div 4) ELSE Undefined)
+                      ELSE IntR(SafeMul(a[2], b[2]))
       [] op = "//" -> IF IsF(a, b) \/ b[2] = 0 THEN Undefined ELSE IntV(FloorDiv(a[2], b[2]))
       [] op = "%"  -> IF IsF(a, b) \/ b[2] = 0 THEN Undefined ELSE IntV(PyMod(a[2], b[2]))
       [] op = "/"  -> IF Q(b) = 0 THEN Undefined
-                      ELSE IF (4 * Q(a)) % Q(b) = 0 THEN <<"float", (4 * Q(a)) \div Q(b)>> ELSE Undefined
-      [] op = "**" -> IF IsF(a, b) \/ b[2] < 0 \/ b[2] > 12 THEN Undefined ELSE IntV(PyPow(a[2], b[2]))
+                      ELSE IF (4 * Q(a)) % Q(b) = 0 THEN FltR((4 * Q(a)) \div Q(b)) ELSE Undefined
+      [] op = "**" -> IF IsF(a, b) \/ b[2] < 0 \/ b[2] > 40 THEN Undefined ELSE IntR(SafePow(a[2], b[2]))
       [] op \in {"&", "|", "^"} ->
             IF a[1] = "bool" /\ b[1] = "bool" THEN <<"bool", BitOp(op, a[2], b[2])>>
             ELSE IF IsF(a, b) \/ a[2] < 0 \/ b[2] < 0 THEN Undefined ELSE IntV(BitOp(op, a[2], b[2]))
-      [] op = "<<" -> IF IsF(a, b) \/ b[2] < 0 \/ b[2] > 20 \/ a[2] < 0 THEN Undefined ELSE IntV(a[2] * Pow2(b[2]))
-      [] op = ">>" -> IF IsF(a, b) \/ b[2] < 0 \/ b[2] > 40 THEN Undefined ELSE IntV(FloorDiv(a[2], Pow2(b[2])))
+      [] op = "<<" -> IF IsF(a, b) \/ b[2] < 0 \/ b[2] > 26 \/ a[2] < 0 THEN Undefined ELSE IntR(SafeMul(a[2], Pow2(b[2])))
+      [] op = ">>" -> IF IsF(a, b) \/ b[2] < 0 \/ b[2] > 26 THEN Undefined ELSE IntV(FloorDiv(a[2], Pow2(b[2])))
       [] OTHER -> Undefined
 
 RECURSIVE ValEq(_, _)
@@ -252,6 +264,7 @@ Apply ==
          [] f[1] = "binop2" -> LET res == BinOp(f[2], f[3], v) IN
                                IF f[2] \in {"//", "%"} /\ f[3][1] \in {"int", "bool"} /\ v[1] \in {"int", "bool"} /\ v[2] = 0
                                THEN Go(<<"P", "division by zero">>, Pop)      \* Python raises, Guppy panics: both stop here
+                               ELSE IF res = Overflow THEN Stuck(<<"overflow">>)
                                ELSE IF res = Undefined THEN Stuck(<<"undefined binop", f[2], f[3], v>>) ELSE Go(<<"V", res>>, Pop)
          [] f[1] = "unop"   -> LET res == UnOp(f[2], v) IN
                                IF res = Undefined THEN Stuck(<<"undefined unop", f[2], v>>) ELSE Go(<<"V", res>>, Pop)
@@ -339,7 +352,8 @@ Apply ==
                      ELSE Go(<<"P", "index out of bounds">>, Pop)
          [] f[1] = "aug"    ->      \* f = <<"aug", op, target, old value>>; v = right operand
                 LET res == BinOp(f[2], f[4], v) IN
-                IF res = Undefined THEN Stuck(<<"undefined augop", f[2], f[4], v>>)
+                IF res = Overflow THEN Stuck(<<"overflow">>)
+                ELSE IF res = Undefined THEN Stuck(<<"undefined augop", f[2], f[4], v>>)
                 ELSE Go(<<"V", res>>, Append(Pop, <<"assign", f[3]>>))
          [] f[1] = "augsub1" ->     \* a[i] op= e : base evaluated, now index
                 Go(<<"E", f[3]>>, Append(Pop, <<"augsub2", f[2], v, f[4]>>))
@@ -350,7 +364,8 @@ Apply ==
                      ELSE Go(<<"P", "index out of bounds">>, Pop)
          [] f[1] = "augsub3" ->     \* f = <<"augsub3", op, base, index, old>>; v = rhs
                 LET res == BinOp(f[2], f[5], v) IN
-                IF res = Undefined THEN Stuck(<<"undefined augop", f[2]>>)
+                IF res = Overflow THEN Stuck(<<"overflow">>)
+                ELSE IF res = Undefined THEN Stuck(<<"undefined augop", f[2]>>)
                 ELSE /\ store' = [store EXCEPT ![f[3][2]][f[4][2] + 1] = res]
                      /\ c' = <<"U", <<"next">>>> /\ k' = Pop /\ UNCHANGED <<r, env, out, st, last>>
          [] f[1] = "if"     -> Go(<<"S", IF Truthy(v) THEN f[2] ELSE f[3]>>, Pop)
